@@ -10,7 +10,7 @@ LEVEL = "exploration"
 RULE = ("for n<=4 (quick) / n<=5 (thorough) teams: every weak order x every encoding of it (dense ints, floats, affine "
         "float map, negatives, ints beyond 2^53, 2^70+r, all 2^n int/float typing patterns, bools, signed zeros, "
         "+-inf ends, non-dense gaps, each also as negated scores; ranks omitted for the identity order) x 5 classes x 2 "
-        "value assignments x {K0, K5}; all encodings must give bit-identical posteriors and the canonical one must lie "
+        "value assignments x {K0, K5, K8 (custom gamma sensitive to the rank argument)}; all encodings must give bit-identical posteriors and the canonical one must lie "
         "in the reference interval; non-trivial = encoding differs from the canonical list as a Python object "
         "(type or value) and the posterior differs from the prior")
 ASSUMPTIONS = ["NaN rank values (no order) are outside the property", "n > 5 teams not enumerated here (C01/C04 cover larger n with int ranks)"]
@@ -112,7 +112,7 @@ def units(ctx):
     nmax = 5 if ctx.thorough else 4
     us = []
     for kind in spaces.KINDS:
-        for K in ("K0", "K5"):
+        for K in ("K0", "K5", "K8"):  # K8: gamma callback that depends on every argument, incl. the rank it is handed
             for n in range(2, nmax + 1):
                 parts = {2: 1, 3: 1, 4: 4, 5: 24}[n]
                 for k in range(parts):
@@ -157,3 +157,7 @@ def main(ctx, t0):
     extra = {"exhaustive": True, "max_teams": 5 if ctx.thorough else 4,
              "encodings_per_order_n4": len(encodings((0, 1, 2, 3)))}
     return core.finish(PID, ctx, LEVEL, acc, RULE, extra, ASSUMPTIONS, t0)
+
+
+def replay_unit(unit, ctx):
+    return run_unit(unit, ctx)
